@@ -31,7 +31,8 @@ PROBES = ["split_one", "split_divisor", "split_nondivisor", "split_equal_n", "sp
           "split_skip_final_applied", "split_multi_chunk_part", "join_shuffled", "join_tie_given_order",
           "join_fractional_offset", "join_same_second", "join_crosses_midnight", "join_feature_pruned",
           "join_adjacent_missing", "join_ancillary_input", "join_of_products", "join_5_inputs", "join_time_shifted",
-          "join_frame_shifted", "join_logs_compared", "nonscalar_compared", "roundtrip_reproduced", "tz_not_utc"]
+          "join_frame_shifted", "join_logs_compared", "nonscalar_compared", "roundtrip_reproduced", "tz_not_utc",
+          "input_restamped_after_join"]
 COMPONENTS = {
     "real": ["dclab.cli.split", "dclab.cli.join", "dclab export.hdf5 / RTDCWriter", "dclab RTDC_HDF5 reader incl. ancillary "
              "features and basins", "time.strptime/mktime of the C library under the run's TZ", "h5py/HDF5 on tmpfs"],
@@ -231,6 +232,10 @@ class World:
         nmade = sum(1 for f in self.files if f["kind"] == "made")
         if len(usable) < 2 or (nmade < 6 and r.random() < 0.3):
             return self.gen_make(r)
+        if any(f["kind"].startswith("join") for f in self.files) and r.random() < 0.12:
+            # the acquisition stamp of a file that may already have been joined is corrected in place
+            date, tm, run = self.gen_stamp(r)
+            return {"k": "restamp", "src": r.choice(usable), "date": date, "time": tm, "run": run}
         x = r.random()
         if x < 0.27:
             i = r.choice(usable)
@@ -375,6 +380,25 @@ class World:
         ctx.state_ops += 1
         ctx.log("a", f"make {path.name} n={n} {op['date']} {op['time']} run={op['run']} fr={op['fr']} feats={','.join(feats)}",
                 seeds.short_hash([m.feats[f] for f in sorted(m.feats)]))
+
+    def do_restamp(self, op):
+        import dclab
+        import h5py
+        if op["src"] >= len(self.files):
+            return
+        rec = self.files[op["src"]]
+        if rec["tainted"]:
+            return
+        with h5py.File(rec["path"], "a") as h:
+            h.attrs["experiment:date"] = op["date"]
+            h.attrs["experiment:time"] = op["time"]
+            h.attrs["experiment:run index"] = int(op["run"])
+        with self.ctx.sut("C09.open", sig={"kind": "restamped"}):
+            with dclab.new_dataset(rec["path"]) as ds:
+                ex = ds.config["experiment"]
+                rec.update({"date": ex["date"], "time": ex["time"], "run": int(ex["run index"])})
+        self.ctx.probe("input_restamped_after_join")
+        self.ctx.log("a", f"restamp {rec['name']} {rec['date']} {rec['time']} run={rec['run']}")
 
     # ---- split ----
     def split_model(self, rec, n, skip_i, skip_f):
